@@ -49,7 +49,7 @@ PROPS["C01"] = dict(
               dict(mode="filter", fuzz=True, secs=300, jobs=8, max_len=512, dict="fuzz/tokener_parse_ex.dict"),
               dict(mode="grammar", fuzz=True, secs=300, jobs=8, max_len=2048)],
     min_labels=dict(quick=dict(escape=20000, surrogate=8000, non_integer=20000, boundary_int=5000, midpoint_number=3000,
-                               dup_key=1000, nesting_ge2=10000, nesting_ge20=20, huge_int=500)),
+                               dup_key=1000, nesting_ge2=10000, nesting_ge20=20, huge_int=500, wide_container=3000, long_string=1500)),
     assumptions=["nesting depth <= 31 (default limit; other limits belong to C15)", "texts <= ~6 KiB",
                  "member names containing U+0000 are excluded while the known finding nul-in-member-name is listed"],
 )
@@ -145,7 +145,7 @@ PROPS["C02"] = dict(
               dict(mode="pow10", enum=True, size=11700, workers=4),
               dict(mode="dblgrid", enum=True, size=98256, workers=8),
               dict(mode="trees", fuzz=True, secs=300, jobs=8, max_len=2048)],
-    min_labels=dict(quick=dict(has_double=20000, needs_escape=15000, embedded_nul=3000, invalid_utf8=5000, uint64_node=5000, retained_text=3000, nesting_ge2=10000, all64=1500)),
+    min_labels=dict(quick=dict(has_double=20000, needs_escape=15000, embedded_nul=3000, invalid_utf8=5000, uint64_node=5000, retained_text=3000, nesting_ge2=10000, all64=1500, wide_container=2000)),
     assumptions=["finite doubles only (NaN/Infinity are not JSON; the serialiser's non-standard output for them is outside the property)",
                  "member names are C strings (no NUL) as the API requires"],
 )
